@@ -450,6 +450,25 @@ def g_burst_bits(rng, nbits_total):
     return sorted(bits)
 
 
+def special_checksum_burst(rng, data):
+    """A burst confined to the checksum field that turns it into a value an over-lenient parser might accept:
+    zero (RFC 9653 zero checksum), all ones, the byte-swapped or complemented CRC, or another checksum of the packet."""
+    import zlib
+    data = bytes(data)
+    if len(data) < 12:
+        return None
+    cur = data[8:12]
+    zeroed = data[:8] + b"\0\0\0\0" + data[12:]
+    v = struct.unpack("<L", cur)[0]
+    targets = [b"\0\0\0\0", b"\xff\xff\xff\xff", cur[::-1], struct.pack("<L", v ^ 0xFFFFFFFF),
+               struct.pack("<L", zlib.crc32(zeroed) & 0xFFFFFFFF), struct.pack(">L", zlib.crc32(zeroed) & 0xFFFFFFFF),
+               struct.pack("<L", zlib.adler32(zeroed) & 0xFFFFFFFF), struct.pack("<L", crc32c(data) & 0xFFFFFFFF),
+               struct.pack("<L", crc32c(data[:8] + data[12:]) & 0xFFFFFFFF)]
+    t = rng.choice(targets)
+    bits = [64 + 8 * i + b for i in range(4) for b in range(8) if (cur[i] ^ t[i]) >> b & 1]
+    return bits or None
+
+
 def straddles(bits):
     inside = [i for i in bits if FIELD_LO <= i < FIELD_HI]
     return bool(inside) and len(inside) != len(bits)
@@ -630,10 +649,13 @@ class C08(Check):
             data = ref_packet(g_int(rng, U16), g_int(rng, U16), g_int(rng, U32), ref_chunk(c))
         else:
             data = g_valid_packet(rng)
-        if rng.random() < 0.12:
+        r = rng.random()
+        if r < 0.12:
             bits = craft_straddle(rng, data)
             if bits is None:
                 bits = g_burst_bits(rng, len(data) * 8)
+        elif r < 0.27:
+            bits = special_checksum_burst(rng, data) or g_burst_bits(rng, len(data) * 8)
         else:
             bits = g_burst_bits(rng, len(data) * 8)
         return ["burst", list(data), bits]
